@@ -10,9 +10,11 @@
 //!  * input `util::DefView`: the default driver bodies run and `uget` / `uslice` are bounds-checked, so an
 //!    index >= len handed to an unchecked accessor is a panic.
 //!
-//! Layer 1 (`c10_drv_*`, `c10_w0_*`, `c10_short2_*`, `c10_panic_*`): the six rolling drivers with an arbitrary
+//! Layer 1 (`c10_drv_*`, `c10_w0_*`, `c10_short2_*`, `c10_panic_w0_*`): the six rolling drivers with an arbitrary
 //! callback, returned path (`O = Logged`) and caller-buffer path (`Some(out)` over a `Logged` buffer).
-//! Layer 2 (`c10_cmp_*`, `c10_num_*`, `c10_map_*`, `c10_empty_*`): the kernels that index the input themselves.
+//! Layer 2 (`c10_cmp_*`, `c10_minmaxnorm_*`, `c10_resid_*`, `c10_vrank_*`, `c10_quantile_*`, `c10_argpartition_*`,
+//! `c10_vpartition_*`, `c10_empty_*`): the kernels that index the input themselves. The harness table with the
+//! measured cost decisions is in /verif/tools/gen_c10.py.
 //!
 //! Degenerate regions where the pinned tree *panics cleanly* are acceptable for C10 ("either a fully defined
 //! result or a clean panic"); they are excluded from the main harnesses by `kani::assume` and witnessed by
